@@ -233,6 +233,18 @@ def check_snapshot(sc, ledger, snap, V, where):
             if got.shape != e.shape or not np.allclose(got, e, rtol=1e-9, atol=1e-12):
                 V.append({"sig": f"C05.results|cl is not the accumulated cost divided by the samples simulated|{cls}",
                           "oracle": "results", "detail": {"at": where, "got": got.tolist()[:6], "expected": e.tolist()[:6]}})
+        law = sc.get("law")
+        if law is not None and not sc.get("real"):
+            # independent ledger of the cost: the scripted process charges a constant per path at each level, so the cost
+            # accumulated for a level is that charge times the samples simulated there - whatever pass added the level
+            per_path = np.array([0.0 if lvl in law.get("zero_cost_levels", []) else law["cost0"] * 2.0 ** (law["gamma"] * lvl)
+                                 for lvl in range(len(snap["Nl"]))])
+            e2 = per_path * cnt
+            if sum_cost.shape != e2.shape or not np.allclose(sum_cost, e2, rtol=1e-9, atol=1e-12):
+                bad = [i for i in range(min(len(sum_cost), len(e2))) if not np.isclose(sum_cost[i], e2[i], rtol=1e-9, atol=1e-12)]
+                late = "late-level" if bad and bad[0] > initial else "initial-level"
+                V.append({"sig": f"C05.results|accumulated cost of a level is not the cost of the samples simulated at that level|{late}|{cls}",
+                          "oracle": "results", "detail": {"at": where, "got": sum_cost.tolist()[:6], "expected": e2.tolist()[:6]}})
 
 
 def execute(wd, sc):
